@@ -1,6 +1,193 @@
 import Driver.Util
-open Lean
+import Driver.Status
+import DoitModel.Model.Inputs
+open Lean DoitModel.Status DoitModel.Inputs
 namespace Driver.P10
-/-- handler for requests with `"model": "c10"` (property-specific monitors / model queries of C10; stub until built) -/
-def handle (_ : Json) : Json := Driver.err "model not implemented"
+/-! requests `{"model":"c10","mode":"model"|"monitor"|"getargs", …}`
+
+`mode = "model"` (K) and `"monitor"` (P): `{"ntasks":n,"npaths":n,"ops":[op…]}` (model mode: optional
+`"repaired":true` = `depChangedRepaired`, the loop with the repair of findings/pending/C10-readded-dep-stale-state.md); ops are those of the status driver
+for the file system / definitions / commands (`edit touch delete editKeep redefine checker forget ignore unmet`) plus
+  `["addcalc", t, [p…]]`                 `update_deps`: file_dep delivered by a calc_dep task (both modes)
+  `["select", t, always]`                model mode: `get_status` of `t` is reached; answer: status, executes, the kwargs
+  `["complete", t, ok, writes, res]`     model mode: actions ran, `process_task_result`
+  `["sel", t, always, {"changed":[p…],"dependencies":[p…],"targets":[p…]}]`
+                                         monitor mode: the implementation executed `t` and its action received these
+                                         kwargs; evaluated on the ghost state at the time of the status check
+  `["exec", t, ok, always, writes, res]` monitor mode (as in the status driver)
+answer `{"steps":[…]}`, one object per op.
+
+`mode = "getargs"`: `{"ops":[["save",t,[[k,v]…]] | ["remove",t] | ["get", subs|null, src, key|null]]}`; answer per `get`:
+`model` = `getArg` on the DB state machine, `spec` = `getArg` on `latest` of the reversed history. -/
+
+def sortNats (l : List Nat) : List Nat := (l.toArray.qsort (· < ·)).toList
+
+def kwJ (kw : Kw) : Json :=
+  Json.mkObj [("changed", ofNats (sortNats kw.changed.eraseDups)), ("dependencies", ofNats (sortNats kw.dependencies.eraseDups)),
+              ("targets", ofNats kw.targets)]
+
+def parseKw (j : Json) : Kw := ⟨jnats j "changed", jnats j "dependencies", jnats j "targets"⟩
+
+/-- monitor-only ghost: what the most recent recorded successful execution *having `p` as a dependency* saw of `p`
+    (reset whenever the record of the task is dropped); used only to classify a violation as the stale-state finding -/
+abbrev Seen := List ((Nat × Nat) × FMeta)
+
+def seenGet (sn : Seen) (t p : Nat) : Option FMeta := DoitModel.alookup (t, p) sn
+def seenDrop (sn : Seen) (t : Nat) : Seen := sn.filter fun e => e.1.1 != t
+def seenPut (sn : Seen) (t : Nat) (deps : List Nat) (fs : FS) : Seen :=
+  deps.foldl (fun acc p => match fs p with
+    | none => acc
+    | some m => ((t, p), m) :: (acc.filter fun e => e.1 != (t, p))) sn
+
+def classOf (s : St) (sn : Seen) (t p : Nat) : String :=
+  match s.shadow t with
+  | none => "no-recorded-execution"
+  | some e =>
+    if p ∈ e.deps then (if depUnmod s.checker e s.fs p then "unmodified" else "modified")
+    else match seenGet sn t p, s.fs p with
+      | some sm, some now => if unmodBy s.checker sm now then "readded-unmodified-since-older-execution" else "readded-modified"
+      | some _, none => "readded-missing"
+      | none, _ => "new-dependency"
+
+inductive Ev
+  | st (e : Driver.Status.Ev)
+  | addcalc (t : Nat) (ps : List Nat)
+  | select (t : Nat) (always : Bool)
+  | complete (t : Nat) (ok : Bool) (writes : List (Nat × Nat × Nat)) (res : Option Nat)
+  | sel (t : Nat) (always : Bool) (kw : Kw)
+
+def parseEv (j : Json) : Option Ev :=
+  match asArr j with
+  | [tag, a, b] =>
+    match asStr tag with
+    | "addcalc" => some (.addcalc (asNat a) ((asArr b).map asNat))
+    | "select" => some (.select (asNat a) (Driver.Status.asBool b))
+    | _ => (Driver.Status.parseEv j).map .st
+  | [tag, a, b, c] =>
+    match asStr tag with
+    | "sel" => some (.sel (asNat a) (Driver.Status.asBool b) (parseKw c))
+    | _ => (Driver.Status.parseEv j).map .st
+  | [tag, t, ok, writes, res] =>
+    match asStr tag with
+    | "complete" => some (.complete (asNat t) (Driver.Status.asBool ok) (Driver.Status.parseWrites writes) (Driver.Status.optNat res))
+    | _ => (Driver.Status.parseEv j).map .st
+  | _ => (Driver.Status.parseEv j).map .st
+
+def nullJ : Json := Json.mkObj [("kind", Json.str "-")]
+
+def selectJ (repaired : Bool) (s : St) (t : Nat) (always : Bool) : Json :=
+  Json.mkObj [("kind", Json.str "select"),
+    ("status", Json.str (Driver.Status.statusStr (s.status true t))),
+    ("executes", Json.bool (executes s t always)),
+    ("kw", kwJ (if repaired then kwargsRepaired s t else kwargsOf s t)),
+    ("falseItem", Json.bool (utdFalse (s.rcd t).getValues s.resOf (s.defs t).uptodate)),
+    ("ambiguous", Json.bool (Driver.Status.ambiguousAt s t))]
+
+def modelStep (repaired : Bool) (s : St) : Ev → St × Json
+  | .st (.op o) => (istep s (.base o), Json.mkObj [("kind", Json.str "op"), ("crashed", Json.bool (istep s (.base o)).crashed)])
+  | .st _ => (s, nullJ)
+  | .addcalc t ps => (istep s (.base (.redefine t (withCalc (s.defs t) ps))),
+      Json.mkObj [("kind", Json.str "addcalc"), ("deps", ofNats (sortNats (withCalc (s.defs t) ps).deps))])
+  | .select t always => (istep s (.select t), selectJ repaired s t always)
+  | .complete t ok ws res =>
+    let s' := istep s (.complete t ok ws res)
+    (s', Json.mkObj [("kind", Json.str "complete"), ("crashed", Json.bool s'.crashed),
+                     ("saved", Json.bool (s'.shadow t).isSome), ("clock", toJson s'.clock)])
+  | .sel _ _ _ => (s, Driver.err "monitor event in model mode")
+
+def monStep (acc : St × Seen) : Ev → (St × Seen) × Json
+  | .st (.op o) =>
+    let s := acc.1
+    let sn := match o with
+      | .forget t => seenDrop acc.2 t
+      | .unmet t => seenDrop acc.2 t
+      | _ => acc.2
+    ((step true s o, sn), nullJ)
+  | .st (.exec t ok _ ws res) =>
+    let s := acc.1
+    let s' := monExec s t ok ws res
+    let sn0 := if ghostRemoves s t || !ok then seenDrop acc.2 t else acc.2
+    let sn := if ok then seenPut sn0 t (s.defs t).deps s'.fs else sn0
+    ((s', sn), nullJ)
+  | .st _ => (acc, nullJ)
+  | .addcalc t ps => ((step true acc.1 (.redefine t (withCalc (acc.1.defs t) ps)), acc.2), nullJ)
+  | .sel t _ kw =>
+    let s := acc.1
+    let deps := (s.defs t).deps
+    -- `get_status` drops the record at the time of the status check when the checker changed (other tasks checked
+    -- before this one completes -- parallel runners -- already see it gone)
+    let acc' : St × Seen := if ghostRemoves s t then (ghostPeek s t, seenDrop acc.2 t) else acc
+    (acc', Json.mkObj [("kind", Json.str "sel"),
+      ("ok", Json.bool (changedOk s t kw)),
+      ("falseItem", Json.bool (falseItemAt s t)),
+      ("needs", ofNats (sortNats (deps.filter (needsAt s t)).eraseDups)),
+      ("missing", ofNats (sortNats (deps.filter fun p => needsAt s t p && !decide (p ∈ kw.changed)).eraseDups)),
+      ("classes", mkArr (deps.eraseDups.map fun p => mkArr [toJson p, Json.str (classOf s acc.2 t p)])),
+      ("deps", ofNats (sortNats deps.eraseDups)), ("targets", ofNats (s.defs t).targets)])
+  | .select _ _ => (acc, Driver.err "model event in monitor mode")
+  | .complete _ _ _ _ => (acc, Driver.err "model event in monitor mode")
+
+/-! ### getargs -/
+
+def parseUV (j : Json) : UV := (asArr j).map fun kv => match asArr kv with
+  | [k, v] => (asNat k, asNat v)
+  | _ => (0, 0)
+
+def sortUV (v : UV) : UV := (v.toArray.qsort (fun a b => a.1 < b.1)).toList
+
+def leafJ : Leaf → Json
+  | .whole v => Json.mkObj [("whole", mkArr ((sortUV v).map fun (k, x) => mkArr [toJson k, toJson x]))]
+  | .one x => Json.mkObj [("one", toJson x)]
+
+def argJ : Except GErr ArgVal → Json
+  | .error .noRecord => Json.mkObj [("error", Json.str "no-record")]
+  | .error .noKey => Json.mkObj [("error", Json.str "no-key")]
+  | .ok (.single l) => Json.mkObj [("single", leafJ l)]
+  | .ok (.group m) => Json.mkObj [("group", mkArr (((m.toArray.qsort (fun a b => a.1 < b.1)).toList).map fun (s, l) => mkArr [toJson s, leafJ l]))]
+
+inductive GEv
+  | op (o : VOp)
+  | get (subs : Option (List Nat)) (src : Nat) (key : Option Nat)
+
+def parseGEv (j : Json) : Option GEv :=
+  match asArr j with
+  | [tag, a] => if asStr tag = "remove" then some (.op (.remove (asNat a))) else none
+  | [tag, a, b] => if asStr tag = "save" then some (.op (.save (asNat a) (parseUV b))) else none
+  | [tag, subs, src, key] =>
+    if asStr tag = "get" then
+      some (.get (match subs with | .arr a => some (a.toList.map asNat) | _ => none) (asNat src) (key.getNat?).toOption)
+    else none
+  | _ => none
+
+def handleGetargs (j : Json) : Json :=
+  match (jarr j "ops").mapM parseGEv with
+  | none => Driver.err "bad getargs op"
+  | some evs =>
+    -- state: the DB state machine and, separately, the reversed history for the specification
+    let (_, _, outs) := evs.foldl (fun (acc : VDB × List VOp × List Json) e =>
+      match e with
+      | .op o => (vstep acc.1 o, o :: acc.2.1, Json.null :: acc.2.2)
+      | .get subs src key =>
+        (acc.1, acc.2.1, Json.mkObj [("model", argJ (getArg acc.1 subs src key)),
+                                     ("spec", argJ (getArg (latest acc.2.1) subs src key))] :: acc.2.2))
+      ((fun _ => none), [], [])
+    Json.mkObj [("steps", mkArr outs.reverse)]
+
+/-- handler for requests with `"model": "c10"` -/
+def handle (j : Json) : Json :=
+  if jstr j "mode" = "getargs" then handleGetargs j else
+  match (jarr j "ops").mapM parseEv with
+  | none => Driver.err "bad op"
+  | some evs =>
+    if jstr j "mode" = "monitor" then
+      let (_, outs) := evs.foldl (fun (acc : (St × Seen) × List Json) e =>
+        let (a', o) := monStep acc.1 e
+        (a', o :: acc.2)) ((St.init, []), [])
+      Json.mkObj [("steps", mkArr outs.reverse)]
+    else
+      let (_, outs) := evs.foldl (fun (acc : St × List Json) e =>
+        let (s', o) := modelStep (jbool j "repaired") acc.1 e
+        (s', o :: acc.2)) (St.init, [])
+      Json.mkObj [("steps", mkArr outs.reverse)]
+
 end Driver.P10
